@@ -252,6 +252,9 @@ func (cr *caseRun) opConnect(short bool, buffered bool) *shClient {
 	tmo := int64(longTimeoutMs)
 	if short {
 		tmo = shortTimeoutMs
+	} else if cr.r.Chance(30) {
+		tmo = xlongTimeoutMs
+		cr.tag("consumer-msg-timeout-above-default")
 	}
 	id := map[string]interface{}{"client_id": fmt.Sprintf("k%d", k), "hostname": "h", "feature_negotiation": true,
 		"heartbeat_interval": 60000, "msg_timeout": tmo, "output_buffer_size": -1}
